@@ -268,7 +268,7 @@ theorem C19_history_extends (q : Queue) (h : WFq q) :
   have hnil : q' = [] := (abs_eq_nil_iff (runHistory_wf h hq')).1 (by simpa using h1)
   subst hnil
   have := runSpec_length hos
-  exact ⟨os, hp, hq', by simpa using this.symm⟩
+  exact ⟨os, hp, hq', by simpa using this⟩
 
 /-- **Second sentence of C19.**  `reqs` registered in program order, `q0 = build reqs`.
 
@@ -319,8 +319,8 @@ theorem C19_removals_total (reqs : List Req) (hpo : programOrder reqs = true) (o
 
 section examples
 
-/-- a program-order sequence with two self-dependent owners (1 and 2) -/
-private abbrev reqs0 : List Req := [(false, 0), (false, 1), (true, 1), (false, 2), (true, 2), (false, 3)]
+-- `reqs0` below: a program-order sequence with two self-dependent owners (1 and 2)
+local notation "reqs0" => ([(false, 0), (false, 1), (true, 1), (false, 2), (true, 2), (false, 3)] : List Req)
 
 example : programOrder reqs0 = true := by decide
 example : runsDistinct reqs0 = true := by decide
